@@ -298,6 +298,19 @@ func (w *World) applyBadLoad(s Step) *Violation {
 		if err == nil {
 			return w.viol("C14", "C14.loadversion", "accepted", "badload", fmt.Sprintf("LoadVersion(%d) succeeded, retained %v", s.N, w.M.Versions()))
 		}
+		if s.ID%2 == 0 {
+			// ... and on the LIVE handle, whatever uncommitted changes it holds:
+			// the refused load must leave it exactly as it was ("leaves the tree
+			// usable": the audits that follow read the working state through every
+			// path, the next commit must be the canonical one) - seed C14-4B
+			if _, err := w.Tree.LoadVersion(s.N); err == nil {
+				return w.viol("C14", "C14.loadversion", "accepted", "badload-live", fmt.Sprintf("LoadVersion(%d) on the live handle succeeded, retained %v", s.N, w.M.Versions()))
+			}
+			w.P.Inc("badload.live-handle")
+			if w.M.Working != nil && !w.Clean() {
+				w.P.Inc("badload.live-handle-with-uncommitted-changes")
+			}
+		}
 	}
 	w.P.Inc("badload")
 	return nil
